@@ -12,7 +12,7 @@ trap 'rm -rf "$SCR"' EXIT
 ( cd /repo && git ls-files -z | xargs -0 cp --parents -t "$SCR" ) || exit 2
 ( cd "$SCR" && patch -p1 -s < "$PATCH" ) || { echo "PATCH-FAILED $PATCH"; exit 2; }
 if [ $RUNTESTS = 1 ]; then
-  ( cd "$SCR" && /venv/bin/python -m pytest -q -p no:cacheprovider --timeout=900 -x -q 2>&1 | tail -1 ) | sed "s|^|TESTS $(basename "$PATCH"): |"
+  ( cd "$SCR" && /venv/bin/python -m pytest -q -p no:cacheprovider --timeout=900 --continue-on-collection-errors 2>&1 | tail -1 ) | sed "s|^|TESTS $(basename "$PATCH"): |"
 fi
 for C in "$@"; do
   OUT="$(cd /verif && OSLO_UTILS_VERIF_REPO="$SCR" VERIF_SCRATCH_EVIDENCE="$SCR/ev" ./vcheck "$C" 2>&1)"; RC=$?
